@@ -76,7 +76,12 @@ func cmdSelftest(args []string) int {
 					defer wg.Done()
 					defer func() { <-sem }()
 					gmp := []string{"1", "4", "16"}[p%3]
-					out := runWorkerGMP(bins.plain, Job{Mode: "det", Prop: w.Prop, Tier: "quick", Variants: []string{w.Variant}, Base: seed, Start: ord}, gmp)
+					// every other process first executes a few unrelated runs: a run must not depend on what the process did before
+					warm := 0
+					if p%2 == 1 {
+						warm = 1 + p%5
+					}
+					out := runWorkerGMP(bins.plain, Job{Mode: "det", Prop: w.Prop, Tier: "quick", Variants: []string{w.Variant}, Base: seed, Start: ord, Count: warm}, gmp)
 					r := res{gmp: gmp}
 					for _, l := range out.lines["DET"] {
 						var d struct {
